@@ -170,6 +170,22 @@ def gen(params):
     extras = params.get("extras", [])
     sp = params.get("surrogate_p", 0.0)
     for _ in range(params["n"]):
+        if "update_query" in ops and rnd.random() < 0.04:
+            # multi-valued receivers: several keys occurring more than once, several of them updated at once (in any order,
+            # with fewer / as many / more values than the receiver has)
+            keys = rnd.sample(["a", "b", "c", "k 1", "é"], rnd.choice((2, 3)))
+            old = [(k, rnd.choice(["1", "2", "", "x y"])) for k in keys for _ in range(rnd.choice((1, 2, 2, 3)))]
+            rnd.shuffle(old)
+            new = [(k, rnd.choice(["n", "", "m&"])) for k in rnd.sample(keys, rnd.choice((1, 2, len(keys)))) for _ in range(rnd.choice((1, 1, 2)))]
+            form = rnd.choice(["pairs", "multidict", "mapping", "str"])
+            if form == "mapping":
+                new = list(dict(new).items())
+            from urllib.parse import quote
+            q = ({"form": "str", "s": T("&".join(quote(k) + "=" + quote(v) for k, v in new)), "pairs": []} if form == "str"
+                 else {"form": form, "s": [], "pairs": [[T(k), tv_of(v)] for k, v in new]})
+            yield {"prog": [{"op": "ctor", "s": T("http://h/p?" + "&".join(quote(k) + "=" + quote(v) for k, v in old)), "encoded": False},
+                            {"op": "update_query", "q": q}], "fields": fields, "extras": extras}
+            continue
         if rnd.random() < params.get("build_p", 0.3):
             prog = [rnd_build(rnd, surrogate_p=sp)]
         else:
